@@ -625,4 +625,40 @@ def allowedCleanup (out : Nat → Outcome) (o : Obs) : Bool :=
     decide (o.runs i ≤ 1) && (o.accepted i || o.runs i == 0) && !o.ranEarly i &&
     (!(o.waited && o.accepted i) || (o.runs i == 1 && o.retBeforeW i && reported out o i))
 
+
+/-! ## the observation of a model state (what `allowed…` is proved about)
+
+    `ident i` is the identity `errors.Is` is asked for to recognise unit i's error (the harness'
+    injected error e_i). -/
+
+def Orc.obsOf (c : Orc.Cfg) (ident : Nat → Nat) (n : Nat) (s : Orc.St) : Obs :=
+  { n := n, runs := s.runs, accepted := fun i => decide (s.addSt i = .live), rejected := fun _ => false,
+    retBeforeW := s.retAtW, waited := decide (s.orch = .returned),
+    isBit := fun i => isOpt (Orc.waitResult c s.coll) (ident i), handled := fun _ => false,
+    rp := isOpt (Orc.waitResult c s.coll) idRecoveredPanic, sawEndLive := fun _ => false,
+    byConstruct := s.byOrch, ranEarly := fun _ => false }
+
+def Grp.obsOf (c : Grp.Cfg) (ident : Nat → Nat) (n : Nat) (s : Grp.St) : Obs :=
+  { n := n, runs := s.runs, accepted := fun i => decide (i < s.next), rejected := fun _ => false,
+    retBeforeW := s.retAtW, waited := decide (s.gphase = .done),
+    isBit := fun i => isOpt (Grp.waitResult c s) (ident i), handled := fun _ => false,
+    rp := isOpt (Grp.waitResult c s) idRecoveredPanic, sawEndLive := s.sawEndLive,
+    byConstruct := fun _ => false, ranEarly := fun _ => false }
+
+def Pool.obsOf (c : Pool.Cfg) (ident : Nat → Nat) (n : Nat) (s : Pool.St) : Obs :=
+  { n := n, runs := s.runs, accepted := fun i => decide (s.addSt i = .accepted),
+    rejected := fun i => decide (s.addSt i = .rejected),
+    retBeforeW := s.finAtW, waited := s.svcDone,
+    isBit := fun i => isOpt (Pool.waitResult c s.coll) (ident i), handled := fun i => s.handled.contains i,
+    rp := isOpt (Pool.waitResult c s.coll) idRecoveredPanic, sawEndLive := fun _ => false,
+    byConstruct := fun _ => false, ranEarly := fun _ => false }
+
+def Cln.obsOf (c : Cln.Cfg) (ident : Nat → Nat) (n : Nat) (s : Cln.St) : Obs :=
+  { n := n, runs := s.runs, accepted := fun i => decide (s.addSt i = .accepted),
+    rejected := fun i => decide (s.addSt i = .rejected),
+    retBeforeW := fun i => decide (s.runs i = 1) && decide (s.cphase = .done), waited := decide (s.cphase = .done),
+    isBit := fun i => isOpt (Cln.waitResult c s.coll) (ident i), handled := fun _ => false,
+    rp := isOpt (Cln.waitResult c s.coll) idRecoveredPanic, sawEndLive := fun _ => false,
+    byConstruct := fun _ => false, ranEarly := s.ranEarly }
+
 end FunModel.Orch
